@@ -11,7 +11,6 @@ package main
 
 import (
 	"bufio"
-	"context"
 	"bytes"
 	"encoding/json"
 	"flag"
@@ -126,6 +125,7 @@ func replayMain(file string) int {
 	}
 	journal(&sc)
 	v := p.Run(&sc)
+	fmt.Printf("REPLAY-TRACE steps=%d requests=%d handoffs=%d order_sig=%x sched_sig=%x probes=%v\n", v.Steps, v.Requests, v.Handoffs, v.OrderSig, v.SchedSig, v.Probes)
 	if v.Violation {
 		fmt.Printf("REPLAY property=%s clause=%s\n%s\n", sc.Prop, v.Clause, v.Detail)
 		if sc.Clause == "" || sc.Clause == v.Clause {
@@ -329,7 +329,7 @@ func workerMain() int {
 // reportViolation minimises a failing scenario, writes the replay file and checks in a fresh
 // process that it fails the same way.
 func reportViolation(p props.Property, sc *props.Scenario, v *props.Verdict) (ViolationReport, string) {
-	dir := filepath.Join(*fVerifDir, "evidence", "replays")
+	dir := filepath.Join(evidenceDir(), "replays")
 	_ = os.MkdirAll(dir, 0o755)
 	clause := v.Clause
 	deadline := time.Now().Add(90 * time.Second)
@@ -367,18 +367,29 @@ func reportViolation(p props.Property, sc *props.Scenario, v *props.Verdict) (Vi
 	return rep, fmt.Sprintf("determinism failure: run seed %#x fails in the worker but its replay file %s does not fail in a fresh process", sc.RunSeed, file)
 }
 
+// freshReplayFails replays a scenario file in a fresh process and reports whether it fails.
+//
+// The schedule of a scenario is exactly repeatable, and so is every oracle the harness evaluates
+// itself. The one exception is the race detector: whether it *reports* a race that the replayed
+// schedule contains also depends on incidental happens-before edges (sync.Pool inside
+// encoding/json is per-P) and on its bounded shadow memory. A report is never false, so for
+// scenarios judged by the race detector the replay is repeated a few times under different
+// GOMAXPROCS and counts as reproduced as soon as one attempt fails.
 func freshReplayFails(file string) bool {
-	ctx, cancel := context.WithTimeout(context.Background(), 180*time.Second)
-	defer cancel()
-	cmd := exec.CommandContext(ctx, props.SelfExe, "-replay", file, "-verif", *fVerifDir)
-	cmd.Env = append(os.Environ(), "GORACE=halt_on_error=1 exitcode=66")
-	var out bytes.Buffer
-	cmd.Stdout = &out
-	cmd.Stderr = &out
-	err := cmd.Run()
-	if ee, ok := err.(*exec.ExitError); ok {
-		c := ee.ExitCode()
-		return c == 1 || c == 66 || (c != 0 && c != 2 && c != 3 && isCrash(out.String()))
+	attempts := 1
+	if props.RaceEnabled {
+		attempts = 12
+	}
+	gmps := []string{"4", "1", "16", "2", "8", "12"}
+	for a := 0; a < attempts; a++ {
+		env := []string{}
+		if props.RaceEnabled {
+			env = append(env, "GOMAXPROCS="+gmps[a%len(gmps)])
+		}
+		code, out := props.RunSelf([]string{"-replay", file, "-verif", *fVerifDir}, env, 180*time.Second)
+		if code == 1 || code == 66 || (code != 0 && code != 2 && code != 3 && isCrash(out)) {
+			return true
+		}
 	}
 	return false
 }
@@ -434,16 +445,7 @@ func parentMain() int {
 			continue
 		}
 		file := filepath.Join(*fVerifDir, kf.Replay)
-		ctx, cancel := context.WithTimeout(context.Background(), 180*time.Second)
-		cmd := exec.CommandContext(ctx, props.SelfExe, "-replay", file, "-verif", *fVerifDir)
-		cmd.Env = append(os.Environ(), "GORACE=halt_on_error=1 exitcode=66")
-		out, err := cmd.CombinedOutput()
-		cancel()
-		failed := false
-		if ee, ok := err.(*exec.ExitError); ok {
-			c := ee.ExitCode()
-			failed = c == 1 || c == 66 || isCrash(string(out))
-		}
+		failed := freshReplayFails(file)
 		if failed {
 			line := fmt.Sprintf("KNOWN-FINDING: property=%s %s", id, kf.What)
 			fmt.Println(line)
@@ -665,7 +667,7 @@ func parentMain() int {
 		"exhaustive":               false,
 	}
 	ev["coverage"] = cov
-	evDir := filepath.Join(*fVerifDir, "evidence")
+	evDir := evidenceDir()
 	_ = os.MkdirAll(evDir, 0o755)
 	eb, _ := json.MarshalIndent(ev, "", " ")
 	if err := os.WriteFile(filepath.Join(evDir, id+".json"), eb, 0o644); err != nil {
@@ -736,7 +738,7 @@ func deadWorker(p props.Property, idx, code int, journalFile, stderr, runDir str
 		}
 	}
 	sc.Clause, sc.Detail = clause, detail
-	dir := filepath.Join(*fVerifDir, "evidence", "replays")
+	dir := filepath.Join(evidenceDir(), "replays")
 	_ = os.MkdirAll(dir, 0o755)
 	file := filepath.Join(dir, fmt.Sprintf("%s-%016x.json", p.ID(), sc.RunSeed))
 	jb, _ := json.MarshalIndent(&sc, "", " ")
@@ -745,6 +747,15 @@ func deadWorker(p props.Property, idx, code int, journalFile, stderr, runDir str
 		return ViolationReport{}, false
 	}
 	return ViolationReport{RunSeed: sc.RunSeed, Clause: clause, Detail: detail, Replay: file}, true
+}
+
+// evidenceDir is where evidence and replay files go: /verif/evidence, unless a self-test
+// redirects it (VERIF_EVIDENCE_DIR) so that runs against scratch copies leave the real evidence alone.
+func evidenceDir() string {
+	if d := os.Getenv("VERIF_EVIDENCE_DIR"); d != "" {
+		return d
+	}
+	return filepath.Join(*fVerifDir, "evidence")
 }
 
 func topFuncs(m map[string]int64, n int) map[string]int64 {
